@@ -27,6 +27,10 @@ CLAIMED = {
    text="Proof (Lean 4), partial: C01_no_orphans / C01_orphan_removal_keeps_listed / C01_dedup_keeps_* prove the commit-preparation facts (no stray content file survives, dedup only drops entries of the new version the choice does not keep). Validity of every reachable repository is decided by the correspondence plus an independent OCFL validator (vlib/ocflcheck.py, written from the spec text) run on the real tree after every operation, including the strict clauses and the one-new-file-per-digest clause.",
    note="Trusted: as C09; vlib/ocflcheck.py is my reading of OCFL 1.0/1.1 (cross-checked against the official fixtures: all valid/warn fixtures pass, 48/56 error fixtures flagged).",
    technique="Lean 4 theorems on commit preparation + independent validator on every reachable tree", design="§5-C01"),
+ "C18": dict(
+   text="Proof (Lean 4): over the model of Version::diff (three loops with deletes/seen/renames maps, as in the code) C18_modified_iff and C18_added_iff prove that Modified/Added are reported exactly for the paths the set-based reading of the statement prescribes, for all pairs of states; C18_self_empty, C18_show_is_diff_prev, C18_first_all_added. Deleted/Renamed, log, file log and last-update attribution are tied by the differential run (diff/log/flog/ls -l of model vs implementation on every commit) and judged by a set-based Python specification over all ordered version pairs and all paths.",
+   note="Trusted: Lean kernel + 3 standard axioms; hand-written model validated by correspondence; Python set specification.",
+   technique="Lean 4 fold-invariant proofs (model = set specification) + differential history correspondence", design="§5-C18"),
 }
 NOT_YET = "not claimed yet: model/theorems for this property are still under construction in this round (see DESIGN.md §11 order of work)"
 checks = []
